@@ -106,6 +106,7 @@ def run_c20(ctx):
     res = l1_both(ctx, release_scale_quick="1.0", miri_shards=8)
     l2.c20_pty(ctx, res)
     l2.c20_shared_history(ctx, res)
+    l2.c20_history_unwritable(ctx, res)
     return res
 
 
@@ -156,6 +157,13 @@ MIRI_SHARDS = {"C12": 4, "C15": 4, "C17": 2}
 
 def run_dbg(ctx):
     return l1_both(ctx, miri_shards=MIRI_SHARDS.get(ctx.pid, 0))
+
+
+def run_c11(ctx):
+    import l2
+    res = run_dbg(ctx)
+    l2.c11_cli(ctx, res)
+    return res
 
 
 def run_c10(ctx):
@@ -213,7 +221,7 @@ PROPS = {
         "assumptions": DBG_ASSUME,
     },
     "C11": {
-        "run": run_dbg,
+        "run": run_c11,
         "level": "exploration",
         "design_ref": "DESIGN.md section 4 C11",
         "level_text": "Two independent monitors per session: (1) lockstep reference model (pause positions, sorted duplicate-free breakpoint list at every prompt, .break -> address from the reference assembler); (2) a trace invariant over the interleaved fetch/prompt event log: an instruction at a breakpointed address is fetched only directly after a prompt at that address. Exhaustive scripts up to length 3/4 on loop programs (one- and two-instruction loops, call loops) with locations given absolutely, by label and by PC offset; .break at every placement of generated programs; random sessions.",
